@@ -217,6 +217,16 @@ fn harness_blocking<R>(f: impl FnOnce() -> R) -> R {
     r
 }
 
+/// The position part of a formatted first-match answer ("Some(3..5" or "None"). The
+/// metamorphic relations on the first-match function (cursor shift, haystack extension,
+/// prefilter-free twin, pinned regex) exist to validate WHERE the first match is - that is
+/// what drives the cursor of an iteration. They compare positions only: a difference in
+/// capture values alone is a matching-semantics matter (C01/C02), not an iteration one, and
+/// the pinned tree has such a defect (DESIGN 9.9).
+pub fn pos_only(s: &str) -> &str {
+    s.split(';').next().unwrap_or(s)
+}
+
 /// A pattern whose matches cannot depend on what follows them: no `$`, no look-ahead, no
 /// word-boundary assertion (checked syntactically and conservatively: an escaped `\$` also
 /// counts). Look-behind and `^` only look backwards.
@@ -274,6 +284,7 @@ pub struct ModelStats {
     pub extension_checks: u64,
     pub extension_informative: u64,
     pub shift_checks: u64,
+    pub twin_checks: u64,
     pub shift_informative: u64,
     pub pinned_queries: u64,
     pub pinned_unknown: u64,
@@ -379,7 +390,7 @@ impl<'w> Model<'w> {
                             };
                             if let Some(imp) = implied {
                                 self.stats.lock().unwrap().shift_informative += 1;
-                                if imp != *at_c {
+                                if pos_only(&imp) != pos_only(at_c) {
                                     self.shift_viols.lock().unwrap().push((
                                         format!("/{}/{} ({:?},{:?}) on {:?}: first match from {} is {} which starts at or after {}", spec.pattern, spec.flags, spec.exec, spec.input, text, c2, imp, cursor),
                                         imp,
@@ -431,7 +442,7 @@ impl<'w> Model<'w> {
                                     None => "None".to_string(),
                                     Some(m) => fmt_match(m),
                                 };
-                                if got != *at_c {
+                                if pos_only(&got) != pos_only(at_c) {
                                     self.shift_viols.lock().unwrap().push((
                                         format!("/{}/{} ({:?},{:?}) on {:?}: first match from {} is {}, which starts at or after {} (or is none)", spec.pattern, spec.flags, spec.exec, spec.input, text, cursor, at_c, c2),
                                         at_c.clone(),
@@ -475,13 +486,55 @@ impl<'w> Model<'w> {
                         };
                         if let Some(imp) = implied {
                             self.stats.lock().unwrap().extension_informative += 1;
-                            if imp != *at_c {
+                            if pos_only(&imp) != pos_only(at_c) {
                                 self.shift_viols.lock().unwrap().push((
                                     format!("/{}/{} ({:?},{:?}) on {:?} from {}: with {} characters appended the first match is {}, which lies inside the original text (or is none)", spec.pattern, spec.flags, spec.exec, spec.input, text, cursor, pad.chars().count(), imp),
                                     imp,
                                     format!("{} (first match from {} in the original text) [haystack-extension]", at_c, cursor),
                                 ));
                             }
+                        }
+                    }
+                }
+            }
+        }
+        // Prefilter-free twin (every world, half of the uncached queries): `(?:P|(?!))` denotes
+        // the same matches with the same captures as P, but the never-matching alternative
+        // defeats every start predicate derived from P (first-byte sets, literal prefixes,
+        // anchoring shortcuts), so each offset is attempted by the matcher itself. A start
+        // predicate that skips offsets where P does match is wrong identically in the
+        // iterator, in a fresh search, under cursor shifts, under extension and in a pinned
+        // regex that inherits P's predicate - but not here.
+        if cursor <= text.len() {
+            if let Some(at_c) = &ans.outcome {
+                let mut hsel = Fnv::default();
+                hsel.str(text);
+                hsel.u64(cursor as u64 ^ 0x7717);
+                if hsel.0 % 2 == 0 && !at_c.starts_with("NoRegex") && !at_c.starts_with("Panicked") {
+                    let twin = RegexSpec { pattern: format!("(?:{}|(?!))", spec.pattern), flags: spec.flags.clone(), exec: spec.exec, input: spec.input };
+                    let (r2, st2) = model_mode(fuel, || {
+                        let re = compile(&twin).ok()?;
+                        let mut it = open_iter(&re, &twin, text_static, cursor);
+                        let m = it.next();
+                        drop(it);
+                        Some(m)
+                    });
+                    {
+                        let mut stg = self.stats.lock().unwrap();
+                        stg.twin_checks += 1;
+                        stg.steps += st2;
+                    }
+                    if let Ok(Some(m2)) = r2 {
+                        let got = match &m2 {
+                            None => "None".to_string(),
+                            Some(m) => fmt_match(m),
+                        };
+                        if pos_only(&got) != pos_only(at_c) {
+                            self.shift_viols.lock().unwrap().push((
+                                format!("/{}/{} ({:?},{:?}) on {:?} from {}: the prefilter-free twin /(?:P|(?!))/ finds {}", spec.pattern, spec.flags, spec.exec, spec.input, text, cursor, got),
+                                got,
+                                format!("{} (first match from {}) [prefilter-free-twin]", at_c, cursor),
+                            ));
                         }
                     }
                 }
@@ -503,7 +556,7 @@ impl<'w> Model<'w> {
                     self.stats.lock().unwrap().pinned_queries += 1;
                     match self.first_pinned(reidx, text, cursor) {
                         Some(pinned) => {
-                            if pinned != *inproc {
+                            if pos_only(&pinned) != pos_only(inproc) {
                                 self.pinned_viols.lock().unwrap().push((format!("/{}/{} ({:?},{:?}) on {:?} from {}", spec.pattern, spec.flags, spec.exec, spec.input, text, cursor), pinned, inproc.clone()));
                             }
                         }
@@ -558,7 +611,7 @@ impl<'w> Model<'w> {
         let (r, _) = model_mode(fuel, || {
             for p in positions {
                 let n = if ascii { p } else { copy[..p].chars().count() };
-                let derived = RegexSpec { pattern: format!("(?<=(?<![^])[^]{{{}}})(?:{})", n, spec.pattern), flags: spec.flags.clone(), exec: spec.exec, input: spec.input };
+                let derived = RegexSpec { pattern: format!("(?<=(?<![^])[^]{{{}}})(?:{}|(?!))", n, spec.pattern), flags: spec.flags.clone(), exec: spec.exec, input: spec.input };
                 let re = match compile(&derived) {
                     Ok(re) => re,
                     Err(_) => return None,
@@ -2488,7 +2541,13 @@ pub fn execute(world: &World, explicit: Option<&[Segment]>) -> Exec {
     for (what, implied, observed) in model.shift_viols.lock().unwrap().iter() {
         viols.push(Violation {
             property: "C09",
-            clause: if observed.ends_with("[haystack-extension]") { "first-match-inconsistent-under-haystack-extension".into() } else { "first-match-inconsistent-under-cursor-shift".into() },
+            clause: if observed.ends_with("[haystack-extension]") {
+                "first-match-inconsistent-under-haystack-extension".into()
+            } else if observed.ends_with("[prefilter-free-twin]") {
+                "first-match-differs-from-prefilter-free-twin".into()
+            } else {
+                "first-match-inconsistent-under-cursor-shift".into()
+            },
             pass: 0,
             thread: 0,
             op: 0,
